@@ -33,24 +33,24 @@ def Ctx.csubsCreate (c : Ctx) (tn : TName) (s : SubRow) : Ctx × Bool :=
     | none => w)
 
 def Ctx.csubsUpdate (c : Ctx) (tn : TName) (u : Uid) (f : SubRow → SubRow) : Ctx × Bool :=
-  c.call "SubsUpdate" (fun w => match w.row? tn with
-    | some r => w.setRow { r with csubs := r.csubs.map (fun s => if s.user = u then f s else s) }
+  c.call "SubsUpdate" (fun w => match w.crow? tn with
+    | some r => w.setCrow { r with csubs := r.csubs.map (fun s => if s.user = u then f s else s) }
     | none => w)
 
 def Ctx.csubsGet (c : Ctx) (tn : TName) (u : Uid) (keepDeleted : Bool) : Ctx × Option (Option SubRow) :=
   let (c, ok) := c.call "SubscriptionGet"
   if !ok then (c, none) else
-  let s := (c.w.row? tn).bind (·.csub? u)
+  let s := (c.w.crow? tn).bind (·.csub? u)
   (c, some (match s with
     | some r => if r.deleted ∧ !keepDeleted then none else some r
     | none => none))
 
 def Ctx.csubsDelete (c : Ctx) (tn : TName) (u : Uid) : Ctx × Option Bool :=
-  let found := match (c.w.row? tn).bind (·.csub? u) with
+  let found := match (c.w.crow? tn).bind (·.csub? u) with
     | some s => !s.deleted
     | none => false
-  let (c, ok) := c.call "SubsDelete" (fun w => match w.row? tn with
-    | some r => if found then w.setRow { r with csubs := r.csubs.map (fun s => if s.user = u then { s with deleted := true } else s) } else w
+  let (c, ok) := c.call "SubsDelete" (fun w => match w.crow? tn with
+    | some r => if found then w.setCrow { r with csubs := r.csubs.map (fun s => if s.user = u then { s with deleted := true } else s) } else w
     | none => w)
   if !ok then (c, none) else (c, some found)
 
@@ -445,7 +445,7 @@ def Ctx.getSubReader (c : Ctx) (t : Topic) (a : Actor) : Ctx :=
   let tn := t.name
   let (c, ok) := c.call "UsersForTopic"
   if !ok then c.emit a.sid (ctrl 500 tn) else
-  let rows := (((c.w.row? tn).map (·.csubs)).getD []).filter (fun s => !s.deleted ∧ s.user = a.uid)
+  let rows := (((c.w.crow? tn).map (·.csubs)).getD []).filter (fun s => !s.deleted ∧ s.user = a.uid)
   if rows.isEmpty then c.emit a.sid (ctrl 204 tn " what=sub") else
   let me := t.pud a.uid
   let presencer := isPresencer (eff me)
@@ -655,7 +655,7 @@ def Ctx.opDelTopicC (c : Ctx) (a : Actor) (tn : TName) (viaChn : Bool) (hard : B
   | none =>
     let (c, ok) := c.call "SubsForTopic"
     if !ok then c.emit a.sid (ctrl 500 tn) else
-    let all := if viaChn then (((c.w.row? tn).map (·.csubs)).getD []).filter (·.user = a.uid) else ((c.w.row? tn).map (·.subs)).getD []
+    let all := if viaChn then (((c.w.crow? tn).map (·.csubs)).getD []).filter (·.user = a.uid) else ((c.w.row? tn).map (·.subs)).getD []
     let subs := all.filter (!·.deleted)
     if subs.isEmpty then c.emit a.sid (ctrl 304 tn) else
     match subs.find? (·.user = a.uid) with
